@@ -36,7 +36,7 @@ ASSUMPTIONS = [
     "generic for a specialised annotation, non-set Set views, omitted argument where the annotation admits Missing/Any, unknown keyword arguments",
     "annotation forms outside the vocabulary (list[...], dict[...], bare Sequence/tuple, recursive aliases) are not generated",
 ]
-MINIMUMS = {"monitor:accepts-conforming": 15000, "monitor:rejects-violating": 20000, "monitor:stored-faithfully": 15000, "breakers_below_top": 3000, "set:terms": 400, "monitor:default-validated": 500, "monitor:required-argument": 300}
+MINIMUMS = {"monitor:accepts-conforming": 15000, "monitor:rejects-violating": 20000, "monitor:stored-faithfully": 15000, "breakers_below_top": 3000, "set:terms": 400, "monitor:default-validated": 500, "monitor:required-argument": 300, "classes_with_two_generic_bases": 200, "values_checked_through_typevar": 1000, "values_checked_through_typevar-subclass": 1000, "classes_with_implementation_like_attribute_names": 100}
 JOBS = {"quick": 4, "thorough": 16}
 LEVEL_TEXT = (
     "All annotation terms up to depth 1 (413 terms, quick) / depth 2 (4.6k terms, thorough) and seeded random terms up to depth 4 - covering None, bool, int, float, str, bytes, UUID, "
@@ -219,6 +219,57 @@ class Runner:
         else:
             self.R.monitor("required-argument", status != "ok", where={"top": top_kind(term), "kind": "omitted-required-accepted"}, detail=f"{A.render(term)}: constructing without the argument gave {res!r}", case={"source": src})
 
+    def exercise_two_bases(self, rng: random.Random) -> None:
+        """class P(A[x], B[y]) where A and B are generic states that both call their type variable T"""
+        N = self.N
+        terms = []
+        for _ in range(2):
+            for _ in range(10):
+                t = A.gen_term(rng, rng.randint(0, 2))
+                if not A.mentions(t, "self"):
+                    terms.append(t)
+                    break
+        if len(terms) < 2:
+            return
+        self.n += 1
+        self.variant, self.vflags = "typevar-two-bases", {}
+        name = f"K{self.n}"
+        lines, args = [], []
+        for i, t in enumerate(terms):
+            pos, arg = rng.choice(A.positions(t))
+            if arg == ("none",):
+                pos, arg = (), t  # the None spelling is the known finding D30: keep this family clear of it
+            args.append(arg)
+            lines += [f"class {name}{'AB'[i]}[T](State):", f"    a{i}: {A.render(A.abstract_at(t, pos, ('var', 'T')))}"]
+        lines += [f"class {name}P({name}A[{A.render(args[0])}], {name}B[{A.render(args[1])}]):", "    pass"]
+        src = "\n".join(lines) + "\n"
+        try:
+            N.define(src)
+            cls = N.ns[name + "P"]
+        except BaseException as exc:  # noqa: BLE001
+            self.R.monitor("accepts-conforming", False, where={"kind": "class-definition-failed", "error": type(exc).__name__, "variant": self.variant}, detail=f"{src!r} raised {exc!r}", case={"source": src})
+            return
+        self.R.count("classes_with_two_generic_bases")
+        good: dict[str, Any] = {}
+        for i, t in enumerate(terms):
+            for _ in range(6):
+                try:
+                    v = A.conforming(N, t, rng)
+                except BaseException:  # noqa: BLE001
+                    continue
+                if A.conforms(N, t, v) is True and v is not N.MISSING:
+                    good[f"a{i}"] = v
+                    break
+        if len(good) < 2:
+            return
+        for i, t in enumerate(terms):
+            others = {k: v for k, v in good.items() if k != f"a{i}"}
+            self.check_value(cls, src, f"a{i}", t, good[f"a{i}"], others, "conforming")
+            for b in rng.sample(self.battery, 10):
+                self.check_value(cls, src, f"a{i}", t, b, others, "battery")
+        for k in [k for k in N.ns if k.startswith(name)]:
+            del N.ns[k]
+
     def exercise_defaults(self, rng: random.Random, fixed: tuple[list[Any], str, tuple[int, tuple[int, ...]] | None] | None = None) -> None:
         N = self.N
         nattr = rng.randint(1, 4) if fixed is None else len(fixed[0])
@@ -341,6 +392,8 @@ def run(R: Recorder, tier: str, seed: int, shard: int, nshards: int) -> None:
         if i % nshards != shard:
             continue
         run.exercise_term(term, rng, nconf=3, full_battery=False, variant=("plain", "typevar", "typevar-subclass")[i % 3])
+        if i % 3 == 0:
+            run.exercise_two_bases(rng)
         run.exercise_defaults(rng)
     sample_term = ("map", ("prim", "str"), ("seq", ("union", [("prim", "int"), ("none",)])))
     v = {"k": [1, None], "ab": []}
